@@ -194,7 +194,7 @@ def simple(k0, k1, w0, w1, op, a, v, q):
 
 
 # ------------------------------------------------------------- Hybrid ----
-def hybrid(max_size, aw10, dw10, k0, k1, k2, d0, d1, d2, g0, g1, g2, newk, newd):
+def hybrid(max_size, aw10, dw10, k0, k1, k2, d0, d1, d2, g0, g1, g2, newk, newd, preclear=False, dpre=0.0):
     """fill the cache (max_size distinct keys, symbolic durations, g_i extra gets), then put a
     key; when the cache is full the evicted entry must have a minimal score and nothing raises"""
     L.reset()
@@ -203,6 +203,13 @@ def hybrid(max_size, aw10, dw10, k0, k1, k2, d0, d1, d2, g0, g1, g2, newk, newd)
     g0, g1, g2 = [L.concretize(x, 0, 2) for x in (g0, g1, g2)[:max_size]] + [g0, g1, g2][max_size:]
     aw, dw = aw10 / 10, dw10 / 10
     c = C.HybridCache(max_size=max_size, access_weight=aw, duration_weight=dw, shared=False)
+    if preclear:
+        # an earlier life of the cache that was cleared must not influence later evictions
+        c.put(7, 0, dpre)
+        c.get(7)
+        c.clear()
+        if len(c) != 0 or 7 in c:
+            return fail("clear")
     keys = [k0, k1, k2][:max_size]
     durs = [d0, d1, d2][:max_size]
     cnt = {}
@@ -465,6 +472,18 @@ def obligations(tier):
                     "reals >= 0 (incl. all zero), access counts 1..3; a put must evict an entry of minimal score and never raise",
                 )  # fmt: skip
             )
+    obs.append(
+        Ob(
+            "hybrid_after_clear_m2",
+            [("k0", I), ("k1", I), ("k2", I), ("d0", F), ("d1", F), ("d2", F), ("g0", I), ("g1", I), ("g2", I), ("newk", I), ("newd", F), ("dpre", F)],
+            [KP + " and k0 < k1 < k2", "0 <= d0 < 1e9 and 0 <= d1 < 1e9 and 0 <= d2 < 1e9 and 0 <= newd < 1e9 and 0 <= dpre < 1e9",
+             "0 <= g0 <= 1 and 0 <= g1 <= 2 and 0 <= g2 <= 1", "0 <= newk <= 3"],
+            "H.hybrid(2, 5, 5, k0, k1, k2, d0, d1, d2, g0, g1, g2, newk, newd, True, dpre)",
+            timeout=240,
+            flags=("realfloat",),
+            bounds="HybridCache(max_size=2): put + get + clear() with a symbolic duration, then the fill / evict step: the cleared entries must not influence the score",
+        )  # fmt: skip
+    )
     for ms in (1, 2):
         obs.append(
             Ob(
